@@ -10,7 +10,7 @@ use std::marker::PhantomData;
 pub fn end_of(e: ParseError) -> End {
     match *e {
         InnerParseError::SyntaxError(s) => End::Syntax { line: s.location.line, column: s.location.column, msg: s.msg },
-        InnerParseError::IoError(e) => End::Io(e.to_string()),
+        InnerParseError::IoError(e) => End::Io(mc_core::source::render_io_error(&e)),
     }
 }
 
